@@ -56,6 +56,34 @@ def sensFn (net : Net W) (xs : List W) (i : Nat) : W :=
 def evalOutputs (net : Net W) (σ : Nat → W → Option W) (sens : Nat → W) : List (Option W) :=
   net.outputs.map (evalNode net σ sens (net.nodes.length + 1))
 
+/-! ### hypotheses of C12 as decidable predicates -/
+
+/-- node `i` respects the ranking `lvl`: a sensor, or a neuron with at least one incoming link, all of whose links
+    are ordinary (not time-delayed), start at an existing node and come from a strictly lower rank.  A ranking
+    exists iff the graph is acyclic; "every neuron has an incoming link" is, on an acyclic graph, the same as
+    "every neuron is reachable from a sensor". -/
+def ffNode (net : Net W) (lvl : Nat → Nat) (i : Nat) (nd : NNodeS W) : Bool :=
+  if nd.isSensor then true
+  else nd.isNeuron && !nd.incoming.isEmpty &&
+    nd.incoming.all fun l => decide (l.src < net.nodes.length) && !l.timeDelayed && decide (lvl l.src < lvl i)
+
+def ffAux (net : Net W) (lvl : Nat → Nat) : List (NNodeS W) → Nat → Bool
+  | [], _ => true
+  | nd :: rest, i => ffNode net lvl i nd && ffAux net lvl rest (i + 1)
+
+/-- feed-forward network without control nodes -/
+def FFNet (net : Net W) (lvl : Nat → Nat) : Bool :=
+  net.ctrl.isEmpty && ffAux net lvl net.nodes 0 && net.outputs.all (fun o => decide (o < net.nodes.length))
+
+/-- the ranking is the longest-path depth: sensors 0, neurons 1 + max over their sources -/
+def tightAux (lvl : Nat → Nat) : List (NNodeS W) → Nat → Bool
+  | [], _ => true
+  | nd :: rest, i =>
+    (if nd.isSensor then lvl i == 0 else lvl i == 1 + (nd.incoming.map (fun l => lvl l.src)).foldl max 0) &&
+      tightAux lvl rest (i + 1)
+
+def Tight (net : Net W) (lvl : Nat → Nat) : Bool := tightAux lvl net.nodes 0
+
 /-- C13: observations of two runs coincide (`eqW` = equality on scalars, bit equality in the driver) -/
 def obsAgree (eqW : W → W → Bool) : List (Obs W) → List (Obs W) → Bool
   | [], [] => true
